@@ -5,6 +5,7 @@ import (
 	"go/ast"
 	"go/token"
 	"go/types"
+	"regexp"
 	"strings"
 
 	"golang.org/x/tools/go/cfg"
@@ -577,7 +578,7 @@ func rulesMashDeleg(c *Ctx, r *Report) {
 	for _, rc := range returnCases(sd, ds) {
 		nRet++
 		e := sd.expr(rc.vals[0]).String()
-		if !(strings.HasPrefix(e, "call:mash.FromJaccard(call:gostuff/minhash.") && strings.Contains(e, "Jaccard") && strings.HasSuffix(e, "(P0, P1), P2)")) {
+		if !(strings.HasPrefix(e, "call:mash.FromJaccard(call:gostuff/minhash.") && regexp.MustCompile(`\)\.Jaccard(\[[^\]]*\])?\(P0, P1\), P2\)$`).MatchString(e)) {
 			ok = false
 			seen = e + " under " + rc.guard
 		}
